@@ -34,11 +34,16 @@ type flowStep struct {
 	Flow        int    `json:"flow,omitempty"`
 	User        int    `json:"user,omitempty"`
 	Unsolicited bool   `json:"unsolicited,omitempty"`
-	Resp        int    `json:"resp,omitempty"`
-	Jar         string `json:"jar,omitempty"`
-	Relay       string `json:"relay,omitempty"`
-	Other       int    `json:"other_flow,omitempty"`
-	Ms          int64  `json:"ms,omitempty"`
+	// Forged (answer): Mallory takes an assertion the IdP issued for no request (signed, no InResponseTo anywhere), strips the outer
+	// signature and writes the victim flow's request ID into the unsigned envelope
+	Forged bool `json:"forged_envelope,omitempty"`
+	// Artifact (deliver): the IdP brings the browser back with GET acs?SAMLart=..&RelayState=.. (deployments with the artifact response binding)
+	Artifact bool   `json:"via_artifact,omitempty"`
+	Resp     int    `json:"resp,omitempty"`
+	Jar      string `json:"jar,omitempty"`
+	Relay    string `json:"relay,omitempty"`
+	Other    int    `json:"other_flow,omitempty"`
+	Ms       int64  `json:"ms,omitempty"`
 }
 
 var flowURLs = []string{"/page1", "/page2?x=1&y=%2F", "/deep/er/path", "/page1?again=1",
@@ -55,6 +60,7 @@ func genFlows(g *Rng, tier string) *Plan {
 		if g.Bool(0.5) {
 			mwNoise(g, &k.Deploys[i])
 		}
+		k.Deploys[i].ArtifactBinding = g.Bool(0.3)
 	}
 	p := &Plan{Knobs: mustJSON(k)}
 	var steps []flowStep
@@ -70,10 +76,10 @@ func genFlows(g *Rng, tier string) *Plan {
 			steps = append(steps, flowStep{Kind: "start", B: g.Intn(k.Browsers), SP: g.Intn(nd), URL: Pick(g, flowURLs...)})
 			nflows++
 		case c == 1 || nresps == 0:
-			steps = append(steps, flowStep{Kind: "answer", Flow: g.Intn(nflows), User: g.Intn(4), Unsolicited: fault && g.Bool(0.2)})
+			steps = append(steps, flowStep{Kind: "answer", Flow: g.Intn(nflows), User: g.Intn(4), Unsolicited: fault && g.Bool(0.2), Forged: fault && g.Bool(0.12)})
 			nresps++
 		case c == 2:
-			st := flowStep{Kind: "deliver", Resp: g.Intn(nresps), B: -1, Jar: "faithful", Relay: "echo", Other: g.Intn(nflows)}
+			st := flowStep{Kind: "deliver", Resp: g.Intn(nresps), B: -1, Jar: "faithful", Relay: "echo", Other: g.Intn(nflows), Artifact: g.Bool(0.5)}
 			if fault {
 				st.Jar, st.Relay = Pick(g, jarPolicies...), Pick(g, relayPolicies...)
 				if g.Bool(0.15) {
@@ -147,6 +153,7 @@ func execFlows(t *testing.T, p *Plan) *Result {
 	saml.MaxIssueDelay = ms(k.MaxIssueDelayMs)
 	installRand(p)
 	idpMD := idpMetadataFor(idpEntity, idpSSO, idpSLO, []KeyPair{rsaKeys[0]}, nil, "signing")
+	idpMD.IDPSSODescriptors[0].ArtifactResolutionServices = []saml.Endpoint{{Binding: saml.SOAPBinding, Location: "https://idp.example.com/artifact"}}
 	var deploys []*mwDeploy
 	for _, c := range k.Deploys {
 		deploys = append(deploys, newMWDeploy(c, idpMD, "role", "admin"))
@@ -228,7 +235,14 @@ func execFlows(t *testing.T, p *Plan) *Result {
 			if st.Unsolicited {
 				irt = ""
 			}
+			if st.Forged {
+				irt = "" // what the IdP vouched for: an answer to no request
+			}
 			spec := mwResponseSpec(deploys[f.sp], users[st.User%len(users)], irt, len(resps))
+			if st.Forged {
+				spec.Sign, spec.InResponseTo = false, f.reqID
+				res.fire("forged-envelope")
+			}
 			body := base64.StdEncoding.EncodeToString(elBytes(BuildResponseEl(&spec, time.Now())))
 			r := &respRec{flow: st.Flow, sp: f.sp, user: st.User % len(users), irt: irt, body: body, at: time.Now()}
 			resps = append(resps, r)
@@ -378,7 +392,18 @@ func execFlows(t *testing.T, p *Plan) *Result {
 			if relay != "" {
 				form.Set("RelayState", relay)
 			}
-			rep := deliver(d.handler, "POST", d.acs(), form.Encode(), formCT, presented)
+			var rep *reply
+			if st.Artifact && d.resolver != nil {
+				raw, _ := base64.StdEncoding.DecodeString(r.body)
+				q := url.Values{"SAMLart": {d.resolver.artifactFor(st.Resp, raw)}}
+				if relay != "" {
+					q.Set("RelayState", relay)
+				}
+				res.fire("delivery:artifact")
+				rep = deliver(d.handler, "GET", d.acs()+"?"+q.Encode(), "", "", presented)
+			} else {
+				rep = deliver(d.handler, "POST", d.acs(), form.Encode(), formCT, presented)
+			}
 			r.count++
 			if rep.Panic != nil {
 				res.Excluded = "panic (reported under C09)"
